@@ -174,7 +174,7 @@ def scoping_relevant(q):
 
 def bind_central(ctx, quick, queries):
     rng = ctx.rng
-    n_tlc, n_deep, n_rand = (60, 40, 160) if quick else (800, 500, 3000)
+    n_tlc, n_deep, n_rand = (60, 40, 160) if quick else (400, 250, 1500)
     nq = 26 if quick else 40
     worlds_abs = []
     _, ws = ctx.simulate_behaviours(
@@ -292,7 +292,7 @@ def server_sig(w, ev, clauses):
 
 def bind_server(ctx, quick, r_info):
     rng = ctx.rng
-    n_tlc, n_rand = (110, 170) if quick else (1500, 4000)
+    n_tlc, n_rand = (110, 170) if quick else (800, 2000)
     worlds = []
     _, behs = ctx.simulate_behaviours(
         "WbemServerImpl", "WbemServerImplSim.cfg", n_tlc, 11,
